@@ -1,7 +1,8 @@
 /-
   Dirk.Gen.Kernels — GENERATED — do not edit.  Regenerated on every run by /verif/factx (kernels.go) from the
   Go source of the decision kernels (rules/standard, services/checker/static, services/process/standard,
-  util/scatter.go, services/api/grpc/handlers/receiver, services/peers/static, slashingprotection.go);
+  util/scatter.go, services/api/grpc/handlers/receiver, services/peers/static, slashingprotection.go,
+  services/signer/standard: the batch signing loop, with core/result.go and rules/service.go for the enumerator values);
   Dirk/Props/KernelsEq.lean proves each definition
   equal to the hand-written model function.  A kernel outside the translatable fragment appears as
   `kernelUntranslatable_<name>` instead, and KernelsEq.lean does not build.
@@ -359,6 +360,135 @@ def importBlockStepGuards : List String := [
   "  slot < 0 => refuse",
   "  slot > keyProtection.HighestProposedSlot => keyProtection.HighestProposedSlot = slot",
   "}"
+]
+
+/-- rules/service.go: the enumerators of `rules.Result` with the values their iota block gives them, in declaration order -/
+def rulesResultValuesGen : List (String × Nat) := [("UNKNOWN", 0), ("APPROVED", 1), ("DENIED", 2), ("FAILED", 3)]
+
+/-- core/result.go: the enumerators of `core.Result` with the values their iota block gives them, in declaration order -/
+def coreResultValuesGen : List (String × Nat) := [("ResultUnknown", 0), ("ResultSucceeded", 1), ("ResultDenied", 2), ("ResultFailed", 3)]
+
+/-- the zero value of `core.Result` (what `make([]core.Result, n)` fills the slice with) is the enumerator ResultUnknown -/
+def coreResultZeroIsUnknownGen : Bool := true
+
+/-- `SignBeaconAttestations` (services/signer/standard/signbeaconattestations.go), ONE visited position of the final (signing) loop: the `core.Result` value written to `results[i]` and whether `signatures[i]` is assigned.
+    `verdict`: the value of `rulesResults[i]` (a `rules.Result`; a value no arm names falls out of the switch, as in Go);
+    rootErr, signingRootErr, signErr: the allow-listed calls HashTreeRoot, generateSigningRoot, signRoot returned an error, in source order; model counterpart: `Dirk.signEvs (one element)`. -/
+def signLoopPosAttGen (verdict : Nat) (rootErr signingRootErr signErr : Bool) : Nat × Bool :=
+  if verdict = 0 then (3, false)
+  else if verdict = 2 then (2, false)
+  else if verdict = 3 then (3, false)
+  else if verdict = 1 then
+    if rootErr then (3, false)
+    else if signingRootErr then (3, false)
+    else if signErr then (3, false)
+    else (1, true)
+  else
+    if rootErr then (3, false)
+    else if signingRootErr then (3, false)
+    else if signErr then (3, false)
+    else (1, true)
+
+/-- the guards of `SignBeaconAttestations`, as written in the source, in order -/
+def signLoopPosAttGuards : List String := [
+  "switch rulesResults[i]",
+  "case rules.UNKNOWN: results[i] = core.ResultFailed; continue",
+  "case rules.DENIED: results[i] = core.ResultDenied; continue",
+  "case rules.FAILED: results[i] = core.ResultFailed; continue",
+  "case rules.APPROVED: (nothing: falls out of the switch)",
+  "attestation := &spec.AttestationData{…}",
+  "copy(attestation.BeaconBlockRoot[:], data[i].BeaconBlockRoot)",
+  "copy(attestation.Source.Root[:], data[i].Source.Root)",
+  "copy(attestation.Target.Root[:], data[i].Target.Root)",
+  "dataRoot, err := attestation.HashTreeRoot()",
+  "if err != nil { results[i] = core.ResultFailed; continue }",
+  "signingRoot, err := generateSigningRoot(ctx, dataRoot[:], data[i].Domain)",
+  "if err != nil { results[i] = core.ResultFailed; continue }",
+  "signature, err := signRoot(ctx, accounts[i], signingRoot[:])",
+  "if err != nil { results[i] = core.ResultFailed; continue }",
+  "results[i] = core.ResultSucceeded",
+  "signatures[i] = signature"
+]
+
+/-- `Multisign` (services/signer/standard/multisign.go), ONE visited position of the final (signing) loop: the `core.Result` value written to `results[i]` and whether `signatures[i]` is assigned.
+    `verdict`: the value of `rulesResults[i]` (a `rules.Result`; a value no arm names falls out of the switch, as in Go);
+    signingRootErr, signErr: the allow-listed calls generateSigningRoot, signRoot returned an error, in source order; model counterpart: `Dirk.signGenerics (one element)`. -/
+def signLoopPosMultiGen (verdict : Nat) (signingRootErr signErr : Bool) : Nat × Bool :=
+  if verdict = 0 then (3, false)
+  else if verdict = 2 then (2, false)
+  else if verdict = 3 then (3, false)
+  else if verdict = 1 then
+    if signingRootErr then (3, false)
+    else if signErr then (3, false)
+    else (1, true)
+  else
+    if signingRootErr then (3, false)
+    else if signErr then (3, false)
+    else (1, true)
+
+/-- the guards of `Multisign`, as written in the source, in order -/
+def signLoopPosMultiGuards : List String := [
+  "switch rulesResults[i]",
+  "case rules.UNKNOWN: results[i] = core.ResultFailed; continue",
+  "case rules.DENIED: results[i] = core.ResultDenied; continue",
+  "case rules.FAILED: results[i] = core.ResultFailed; continue",
+  "case rules.APPROVED: (nothing: falls out of the switch)",
+  "signingRoot, err := generateSigningRoot(ctx, data[i].Data, data[i].Domain)",
+  "if err != nil { results[i] = core.ResultFailed; continue }",
+  "signature, err := signRoot(ctx, accounts[i], signingRoot[:])",
+  "if err != nil { results[i] = core.ResultFailed; continue }",
+  "results[i] = core.ResultSucceeded",
+  "signatures[i] = signature"
+]
+
+/-- `SignBeaconAttestations` (services/signer/standard/signbeaconattestations.go), the length handed to util.Scatter for the final (signing) loop, as written; model counterpart: `Dirk.finishKeyedShort (the `take k`, `padUnknown`)`. -/
+def signLoopBoundAttGen : String := "len(rulesResults)"
+
+/-- … the header of the `for` loop inside its closure (`func(offset int, entries int, _ *sync.RWMutex) (any, error)`) -/
+def signLoopIndexAttGen : String := "i := offset; i < offset+entries; i++"
+
+/-- … the tag of the switch in its body, and the statement that defines the variable it reads -/
+def signLoopSwitchTagAttGen : String := "rulesResults[i]"
+def signLoopVerdictsAttGen : String := "rulesResults := s.ruler.RunRules(ctx, credentials, ruler.ActionSignBeaconAttestation, rulesData)"
+
+/-- … how the returned result slice is created, the fill loops directly after that, and how the returned signature slice is created -/
+def signLoopInitAttGen : String := "results := make([]core.Result, len(data))"
+def signLoopInitFillAttGen : List String := ["for i := range results { results[i] = core.ResultUnknown }"]
+def signLoopSigInitAttGen : String := "signatures := make([][]byte, len(data))"
+
+/-- the guards of `SignBeaconAttestations`, as written in the source, in order -/
+def signLoopBoundAttGuards : List String := [
+  "results := make([]core.Result, len(data))",
+  "for i := range results { results[i] = core.ResultUnknown }",
+  "signatures := make([][]byte, len(data))",
+  "rulesResults := s.ruler.RunRules(ctx, credentials, ruler.ActionSignBeaconAttestation, rulesData)",
+  "util.Scatter(len(rulesResults), func(offset int, entries int, _ *sync.RWMutex) (any, error) { for i := offset; i < offset+entries; i++ { switch rulesResults[i] … } })",
+  "return results, signatures"
+]
+
+/-- `Multisign` (services/signer/standard/multisign.go), the length handed to util.Scatter for the final (signing) loop, as written; model counterpart: `Dirk.multisignShort (the `take k`, `padUnknown`)`. -/
+def signLoopBoundMultiGen : String := "len(rulesResults)"
+
+/-- … the header of the `for` loop inside its closure (`func(offset int, entries int, _ *sync.RWMutex) (any, error)`) -/
+def signLoopIndexMultiGen : String := "i := offset; i < offset+entries; i++"
+
+/-- … the tag of the switch in its body, and the statement that defines the variable it reads -/
+def signLoopSwitchTagMultiGen : String := "rulesResults[i]"
+def signLoopVerdictsMultiGen : String := "rulesResults := s.ruler.RunRules(ctx, credentials, ruler.ActionSign, rulesData)"
+
+/-- … how the returned result slice is created, the fill loops directly after that, and how the returned signature slice is created -/
+def signLoopInitMultiGen : String := "results := make([]core.Result, len(data))"
+def signLoopInitFillMultiGen : List String := ["for i := range results { results[i] = core.ResultUnknown }"]
+def signLoopSigInitMultiGen : String := "signatures := make([][]byte, len(data))"
+
+/-- the guards of `Multisign`, as written in the source, in order -/
+def signLoopBoundMultiGuards : List String := [
+  "results := make([]core.Result, len(data))",
+  "for i := range results { results[i] = core.ResultUnknown }",
+  "signatures := make([][]byte, len(data))",
+  "rulesResults := s.ruler.RunRules(ctx, credentials, ruler.ActionSign, rulesData)",
+  "util.Scatter(len(rulesResults), func(offset int, entries int, _ *sync.RWMutex) (any, error) { for i := offset; i < offset+entries; i++ { switch rulesResults[i] … } })",
+  "return results, signatures"
 ]
 
 end Dirk.Gen
